@@ -29,7 +29,7 @@ const (
 )
 
 const (
-	wkNone = iota
+	wkNone  = iota
 	wkLock  // waiting for an unlock of obj
 	wkCond  // waiting for a signal on obj
 	wkSleep // waiting for virtual time
@@ -56,29 +56,31 @@ type timerT struct {
 }
 
 var (
-	active   bool
-	tasks    [MaxTasks]taskT
-	nTasks   int
-	nNormal  int
-	cur      int
-	vnow     int64
-	Steps    int64
-	rng      uint64
-	switchPm int
-	pct      bool
-	pctLeft  [8]int64
-	rec      [maxRec]uint8
-	recN     int
-	replay   []uint8
-	replayOK bool
-	rpos     int
-	timers   [maxTimers]timerT
-	timerHB  [maxTimers]sync.Mutex // real: carries the happens-before edge AfterFunc call -> callback, as the real runtime does
-	timerGen int64
-	Deadlock bool
-	DeadInfo [MaxTasks]int
-	base     = time.Unix(1700000000, 0)
-	OnDeadlock func()
+	active      bool
+	tasks       [MaxTasks]taskT
+	nTasks      int
+	nNormal     int
+	cur         int
+	vnow        int64
+	Steps       int64
+	Wakes       int64 // blocked tasks made runnable again by another task (unlock, signal, broadcast)
+	TimersFired int64
+	rng         uint64
+	switchPm    int
+	pct         bool
+	pctLeft     [8]int64
+	rec         [maxRec]uint8
+	recN        int
+	replay      []uint8
+	replayOK    bool
+	rpos        int
+	timers      [maxTimers]timerT
+	timerHB     [maxTimers]sync.Mutex // real: carries the happens-before edge AfterFunc call -> callback, as the real runtime does
+	timerGen    int64
+	Deadlock    bool
+	DeadInfo    [MaxTasks]int
+	base        = time.Unix(1700000000, 0)
+	OnDeadlock  func()
 )
 
 //go:norace
@@ -197,6 +199,7 @@ func advanceTime() bool {
 	for i := range timers {
 		if timers[i].used && !timers[i].fired && timers[i].at <= vnow {
 			timers[i].fired = true
+			TimersFired++
 			// hand the callback to an idle runner
 			for j := 0; j < nTasks; j++ {
 				if tasks[j].runner && tasks[j].state == stIdleRunner {
@@ -256,6 +259,7 @@ func wake(kind int, obj uintptr, all bool) {
 	for i := 0; i < nTasks; i++ {
 		if tasks[i].state == stBlocked && tasks[i].kind == kind && tasks[i].obj == obj {
 			tasks[i].state = stRunnable
+			Wakes++
 			if !all {
 				return
 			}
@@ -361,6 +365,7 @@ func setup(cfg Config, n int) {
 	recN, rpos = 0, 0
 	replay, replayOK = cfg.Replay, cfg.Replay != nil
 	vnow, Steps = 0, 0
+	Wakes, TimersFired = 0, 0
 	Deadlock = false
 	Panics = nil
 	cur = -2
@@ -553,8 +558,8 @@ func (m *RWMutex) RUnlock() {
 	wake(wkLock, uintptrOf(&m.mu), true)
 	yield()
 }
-func (m *RWMutex) TryLock() bool  { return m.mu.TryLock() }
-func (m *RWMutex) TryRLock() bool { return m.mu.TryRLock() }
+func (m *RWMutex) TryLock() bool        { return m.mu.TryLock() }
+func (m *RWMutex) TryRLock() bool       { return m.mu.TryRLock() }
 func (m *RWMutex) RLocker() sync.Locker { return (*rlocker)(m) }
 
 type rlocker RWMutex
